@@ -12,10 +12,59 @@ use crate::spy::{Spy, SpyCtl};
 use crate::zoo::*;
 use varpro::statistics::FitStatistics;
 
+/// statistics of a problem over the harness's forwarding model wrapper, or over varpro's own
+/// builder-made `SeparableModel` handed to the problem directly ("raw"). The wrapper forwards only
+/// the required trait methods, so anything `SeparableModel` specialises beyond them is reachable
+/// through the raw path only.
+pub enum AnyStats<T: Sc> {
+    Spied(FitStatistics<Spy<T>>),
+    Raw(FitStatistics<varpro::model::SeparableModel<T>>),
+}
+
+macro_rules! fwd {
+    ($self:ident, $s:ident => $e:expr) => {
+        match $self {
+            AnyStats::Spied($s) => $e,
+            AnyStats::Raw($s) => $e,
+        }
+    };
+}
+
+impl<T: Sc> AnyStats<T> {
+    pub fn covariance_matrix(&self) -> &nalgebra::DMatrix<T> {
+        fwd!(self, s => s.covariance_matrix())
+    }
+    pub fn calculate_correlation_matrix(&self) -> nalgebra::DMatrix<T> {
+        fwd!(self, s => s.calculate_correlation_matrix())
+    }
+    pub fn weighted_residuals(&self) -> nalgebra::DVector<T> {
+        fwd!(self, s => s.weighted_residuals())
+    }
+    pub fn regression_standard_error(&self) -> T {
+        fwd!(self, s => s.regression_standard_error())
+    }
+    pub fn reduced_chi2(&self) -> T {
+        fwd!(self, s => s.reduced_chi2())
+    }
+    pub fn nonlinear_parameters_variance(&self) -> nalgebra::DVector<T> {
+        fwd!(self, s => s.nonlinear_parameters_variance())
+    }
+    pub fn linear_coefficients_variance(&self) -> nalgebra::DVector<T> {
+        fwd!(self, s => s.linear_coefficients_variance())
+    }
+    pub fn confidence_band_radius(&self, p: T) -> nalgebra::DVector<T> {
+        fwd!(self, s => s.confidence_band_radius(p))
+    }
+    pub fn is_raw(&self) -> bool {
+        matches!(self, AnyStats::Raw(_))
+    }
+}
+
 pub struct StatFit<T: Sc> {
     pub spec: ProblemSpec,
-    pub fit: AnyFit<T>,
-    pub stats: FitStatistics<Spy<T>>,
+    /// best fit as reported by the fit result (unweighted model values at the solution)
+    pub best_fit: Option<Vec<f64>>,
+    pub stats: AnyStats<T>,
     pub alpha: Vec<f64>,
     /// M×1
     pub c: Mat,
@@ -90,6 +139,7 @@ fn class_scaled(c: &'static str) -> &'static str {
         "large sample (N in 2048..4600)" => "large sample (badly scaled units)",
         "shape sweep" => "shape sweep (badly scaled units)",
         "separated decays" => "separated decays (badly scaled units)",
+        "row of zeros (functions and derivatives vanish at x=0)" => "row of zeros (badly scaled units)",
         _ => "over-parameterised noisy (badly scaled units)",
     }
 }
@@ -114,6 +164,34 @@ fn gen_stat_spec_inner(rng: &mut Rng) -> Option<(ProblemSpec, &'static str)> {
         }
         g.spec.w = Some(w);
         return Some((g.spec, "large sample (N in 2048..4600)"));
+    }
+    if rng.chance(0.06) {
+        // every basis function and every derivative vanishes at the first sample (x = 0): the model
+        // Jacobian has a row of zeros there, and the band radius at that sample is exactly 0
+        let two = rng.chance(0.5);
+        let lin = rng.chance(0.5);
+        let mut basis = vec![Basis::Sin(0)];
+        if two {
+            basis.push(Basis::Sin(1));
+        }
+        if lin {
+            basis.insert(rng.below(basis.len() + 1), Basis::Lin);
+        }
+        let p = 1 + two as usize;
+        let m = basis.len();
+        let n = m + p + rng.int(1, 30);
+        let hi = rng.range(5.0, 7.0);
+        let mut x = grid(rng, n, 0.0, hi, false);
+        x[0] = 0.0;
+        let mut alpha = vec![rng.range(0.7, 1.1)];
+        if two {
+            alpha.push(alpha[0] * rng.range(1.9, 2.6));
+        }
+        let noise = 10f64.powf(rng.range(-4.0, -2.0));
+        let mut g = gen_problem_for(rng, &GenOpts { noise, force_s: Some(1), ..Default::default() }, ModelSpec { x, basis, np: p }, alpha.clone());
+        g.spec.mrhs = false;
+        g.spec.alpha0 = perturb_alpha(rng, &alpha, 0.02);
+        return Some((g.spec, "row of zeros (functions and derivatives vanish at x=0)"));
     }
     let class = rng.below(10);
     if class < 6 {
@@ -161,15 +239,45 @@ fn gen_stat_spec_inner(rng: &mut Rng) -> Option<(ProblemSpec, &'static str)> {
 }
 
 pub fn fit_stats<T: Sc>(spec: &ProblemSpec, cfg: &LmCfg, class: &'static str) -> Option<Result<StatFit<T>, String>> {
+    let n = spec.model.n();
+    let m = spec.model.m();
+    let p = spec.model.np();
+    // builder-made models go to the problem without the wrapper in two cases out of three
+    if let (ModelKind::Built(ms), true) = (&spec.model, spec.hash() % 3 != 0) {
+        use crate::sc::dvec;
+        use varpro::solvers::levmar::{LevMarProblemBuilder, LevMarSolver};
+        let model = build_model::<T>(ms, &spec.alpha0);
+        macro_rules! go {
+            ($ctor:ident) => {{
+                let mut b = LevMarProblemBuilder::$ctor(model).observations(dvec::<T>(spec.y.col(0)));
+                if let Some(w) = &spec.w {
+                    b = b.weights(dvec::<T>(w));
+                }
+                if let Some(e) = spec.eps {
+                    b = b.epsilon(T::of(e));
+                }
+                let prob = b.build().ok()?;
+                match LevMarSolver::with_solver(cfg.make::<T>()).fit_with_statistics(prob) {
+                    Ok((fit, stats)) => {
+                        let alpha: Vec<f64> = fit.nonlinear_parameters().iter().map(|v| v.w()).collect();
+                        let cv = fit.linear_coefficients()?;
+                        let c = Mat::from_fn(cv.len(), 1, |i, _| cv[i].w());
+                        let best_fit = fit.best_fit().map(|b| b.iter().map(|v| v.w()).collect());
+                        Some(Ok(StatFit { spec: spec.clone(), best_fit, stats: AnyStats::Raw(stats), alpha, c, n, m, p, nu: n - m - p, class }))
+                    }
+                    Err(f) => Some(Err(format!("{:?}", f.minimization_report.termination))),
+                }
+            }};
+        }
+        return if spec.par { go!(new_parallel) } else { go!(new) };
+    }
     let prob = build_problem::<T>(spec, &SpyCtl::new()).ok()?;
     match prob.fit_with_statistics(&cfg.make::<T>()) {
         Ok((fit, stats)) => {
             let alpha: Vec<f64> = fit.nonlinear_parameters().iter().map(|v| v.w()).collect();
             let c = widen(&fit.coeffs()?);
-            let n = spec.model.n();
-            let m = spec.model.m();
-            let p = spec.model.np();
-            Some(Ok(StatFit { spec: spec.clone(), fit, stats, alpha, c, n, m, p, nu: n - m - p, class }))
+            let best_fit = fit.best_fit().map(|b| b.iter().map(|v| v.w()).collect());
+            Some(Ok(StatFit { spec: spec.clone(), best_fit, stats: AnyStats::Spied(stats), alpha, c, n, m, p, nu: n - m - p, class }))
         }
         Err(f) => Some(Err(f.termination())),
     }
